@@ -304,7 +304,7 @@ Section Total.
                               | Some a => sample_limit tp (pos s1) a
                               | None => (STATE_LIMIT_MAX, pos s1)
                               end in
-             Ok (set_pos (set_rt s1 mi (rt_set_cur r ns l)) p0))
+             Ok (set_pos (set_rt (add_log s1 (LOG_CHANGE, N.of_nat mi, ns)) mi (rt_set_cur r ns l)) p0))
        else Ok s1) = Ok s2 /\ Inv c s2 /\ nth_error (rts s2) mi = Some r2 /\ cur r2 = ns
        /\ zc s2 mi = zc s mi /\ nsteps s2 = nsteps s + 1).
     { destruct (N.eqb_spec (cur r) ns) as [Heq|Hneq]; cbn [negb].
@@ -313,10 +313,12 @@ Section Total.
       - destruct (getN_lt (states m) ns Hnsl) as [nst ->]. cbn [bind].
         destruct (match saction nst with Some a => sample_limit tp (pos s1) a | None => (STATE_LIMIT_MAX, pos s1) end) as [l q].
         eexists; exists (rt_set_cur r ns l). split; [reflexivity|].
-        split; [eapply Inv_same; [eapply (Inv_set_rt c s1 mi (rt_set_cur r ns l) m); eauto; right; cbn; exact Hnsl|reflexivity|reflexivity|reflexivity]|].
+        split; [eapply Inv_same; [eapply (Inv_set_rt c (add_log s1 (LOG_CHANGE, N.of_nat mi, ns)) mi (rt_set_cur r ns l) m);
+                                    [eapply Inv_same; [exact HI1|reflexivity|reflexivity|reflexivity]|exact Hm|right; cbn; exact Hnsl]
+                                  |reflexivity|reflexivity|reflexivity]|].
         split; [cbn; apply nth_error_upd_eq; exact Hlen|]. split; [reflexivity|].
         split; [|reflexivity].
-        rewrite (zc_same (set_rt s1 mi (rt_set_cur r ns l))) by reflexivity.
+        rewrite (zc_same (set_rt (add_log s1 (LOG_CHANGE, N.of_nat mi, ns)) mi (rt_set_cur r ns l))) by reflexivity.
         rewrite zc_set_rt by exact Hlen. rewrite <- Hz1. unfold zc. rewrite Hr1. reflexivity. }
     destruct H2 as (s2 & r2 & -> & HI2 & Hr2 & Hc2 & Hz2 & Hn2). cbn [bind].
     unfold get at 1. rewrite Hr2. cbn [bind].
